@@ -349,3 +349,72 @@ func VerifH_C14_ParkedDialThenStale() {
 	verifrt.Reach("returned")
 	verifrt.Assert(err == nil && r != nil && r.Header.ID == 2 && r.Header.RCode == 6, "a stale pooled connection is survived while a healthy server is reachable")
 }
+
+// VerifH_C14_WornOutConnectionReplaced: a pipelined connection that has handed out all but its last k wire IDs
+// (k = 1..2) keeps serving a healthy server: the exchanges that use up the last IDs return their replies (the one that
+// empties the waiter table retires the connection — it must not get stuck doing so), and the exchanges after them are
+// served on a fresh connection, every one returning without any deadline. UDP and TCP.
+func VerifH_C14_WornOutConnectionReplaced() {
+	verifrt.Unwind(120)
+	verifrt.SchedBound(1)
+	verifrt.NoTimers()
+	verifrt.CtxNoExpiry = true
+	verifrt.Expect("retired")
+	var conns []*vNetConn
+	isTCP := verifrt.Bool("tcp")
+	t := NewPipelineTransport(PipelineOpts{IsTCP: isTCP, DialContext: func(ctx context.Context) (net.Conn, error) {
+		c := newVNetConn()
+		conns = append(conns, c)
+		go vEchoServer(c, isTCP)
+		return c, nil
+	}})
+	pc, _, err := t.pool.Get(context.Background())
+	verifrt.Assert(err == nil && len(conns) == 1, "first connection dialled")
+	c0 := pc.(*pipelineConn)
+	k := 1 + verifrt.Choose("ids-left", 2)
+	c0.m.Lock()
+	c0.nextQid = 65536 - k
+	c0.reserved = 0
+	c0.m.Unlock()
+	t.pool.Release(c0)
+	for i := 0; i < k+2; i++ {
+		id := uint16(0x1000 + i)
+		r, err := t.ExchangeContext(context.Background(), vQuery12(id, byte(i+1)))
+		verifrt.Assert(err == nil && r != nil, "a healthy server is reachable: every exchange succeeds, before, at and after the end of the connection's ID space")
+		verifrt.Assert(r.Header.ID == id && int(r.Header.RCode) == i+1, "with the reply to its own query")
+		if i == k-1 {
+			verifrt.Quiesce()
+			if conns[0].closed {
+				verifrt.Reach("retired")
+			}
+		}
+	}
+	verifrt.Reach("all-served")
+	verifrt.Assert(len(conns) == 2 && conns[0].closed, "the worn-out connection was retired (closed) and replaced by exactly one fresh connection")
+	st := c0.Status()
+	verifrt.Assert(st.Closed, "and reports itself closed to the pool")
+}
+
+// vEchoServer answers every query on the fake connection with a header-only reply echoing wire ID and marker.
+func vEchoServer(c *vNetConn, isTCP bool) {
+	for {
+		var q []byte
+		select {
+		case q = <-c.outbox:
+		case <-c.closedCh:
+			return
+		}
+		off := 0
+		if isTCP {
+			off = 2
+		}
+		if len(q) < off+12 {
+			continue
+		}
+		r := []byte{q[off], q[off+1], 0x80, q[off+3] & 0xF, 0, 0, 0, 0, 0, 0, 0, 0}
+		if isTCP {
+			r = append([]byte{0, 12}, r...)
+		}
+		c.inbox <- r
+	}
+}
